@@ -326,7 +326,11 @@ impl ItemIds {
 /// Encoded bytes of a tree node or leaf (what TmpNodes stage and what the frozen readers map)
 #[verifier::external_body]
 pub struct NodeBytes { x: Vec<u8> }
-impl NodeBytes { pub uninterp spec fn aval(&self) -> AVal; }
+impl NodeBytes {
+    pub uninterp spec fn aval(&self) -> AVal;
+    /// encoded length (used by ImmutableLeafs::new: all leaves of an index have the same length)
+    pub uninterp spec fn blen(&self) -> usize;
+}
 
 // ---- heed type-state: data codecs (key codecs carry no information here: every key is a `Key`) ----
 pub trait DataCodec {
